@@ -331,17 +331,29 @@ class Translator:
                 raise Unsupported("int(...) of something else than <int> * debt_interest")
             if f == "getattr" and len(n.args) == 2:
                 return self.self_attr(self.attr_target(n.args[0], n.args[1], st, fr), st)
-            if len(n.args) == 2 and self._is_int_product(f):
+            if len(n.args) == 2 and self._is_int_product(getattr(self.src.module, f, None)):
                 # a plain module-level function that IS int(a * b) (evaluated on a probe grid; it may only differ where the
                 # float product leaves the float range, which the model's exact arithmetic does not have)
                 return self.expr(ast.Call(func=ast.Name(id="int", ctx=ast.Load()),
                                           args=[ast.BinOp(left=n.args[0], op=ast.Mult(), right=n.args[1])], keywords=[]), st, fr)
+        if isinstance(n, ast.Call) and isinstance(n.func, ast.Attribute) and len(n.args) == 2 and not n.keywords \
+                and self._is_int_product(self._self_method(n)):
+            return self.expr(ast.Call(func=ast.Name(id="int", ctx=ast.Load()),
+                                      args=[ast.BinOp(left=n.args[0], op=ast.Mult(), right=n.args[1])], keywords=[]), st, fr)
         raise Unsupported(f"expression {ast.unparse(n)[:60]}")
 
-    def _is_int_product(self, name) -> bool:
-        import types
-        f = getattr(self.src.module, name, None)
-        if not isinstance(f, types.FunctionType) or getattr(f, "__module__", None) != self.src.module.__name__:
+    def _self_method(self, c):
+        """the bound method a call `self.<m>(…)` / `ATP_Store.<m>(…)` resolves to, on a throw-away instance (None if it is not one)"""
+        f = c.func
+        if not (isinstance(f, ast.Attribute) and isinstance(f.value, ast.Name) and f.value.id in ("self", "ATP_Store")):
+            return None
+        try:
+            return getattr(self.src.cls(budget=1, silent=True), f.attr, None)
+        except Exception:  # noqa
+            return None
+
+    def _is_int_product(self, f) -> bool:
+        if not callable(f) or isinstance(f, type) or getattr(f, "__module__", None) != self.src.module.__name__:
             return False
         probes = [(0, 0.1), (1, 0.1), (7, 0.5), (10, 0.1), (30, 0.1), (10, 0.7), (99, 0.25), (1000, 1.0), (12345, 2.0),
                   (3, 0.0), (10 ** 12 + 7, 0.1), (2 ** 53 + 3, 0.5), (2 ** 70 + 12345, 0.1), (17, 1), (17, 0)]
@@ -464,6 +476,8 @@ class Translator:
         fn = self.src.methods(classname).get(f.attr)
         if fn is None or (classname == "ATP_Store" and f.attr in MAPPED):
             return None
+        if classname == "ATP_Store" and len(c.args) == 2 and not c.keywords and self._is_int_product(self._self_method(c)):
+            return None          # a product helper kept as a method: read as int(a * b) by `expr`, not inlined
         return fn, full, classname
 
     @staticmethod
